@@ -98,6 +98,30 @@ def san_legs(driver, tier, k=3, asan_events=None, miri_events=None, miri_shards=
     return out
 
 
+def conc(name, workload, variant="release", runs=1500, shards=8, timeout=900, **kw):
+    args = ["conc", workload, "--prop", "{prop}", "--seed", "{seed}", "--runs", str(runs), "--replay-dir", "{replays}", "--secs", str(int(timeout * 0.6))]
+    d = {"name": name, "variant": variant, "shards": shards, "args": args, "timeout": timeout}
+    d.update(kw)
+    return d
+
+
+def conc_legs(workload, tier, sanitizers=False):
+    """Threaded stress: many short native runs with injected delays at the W1/W2 windows, tiny runs under
+    Miri with different seeds / preemption rates, and (memory-class properties) ThreadSanitizer."""
+    q = tier == "quick"
+    out = [
+        conc(f"conc-{workload}", workload, runs=2500 if q else 60_000, shards=6 if q else 16, timeout=600 if q else 3000),
+        conc(f"conc-{workload}-miri", workload, variant="miri", runs=4 if q else 12, shards=3 if q else 16, timeout=2400,
+             miriflags="-Zmiri-preemption-rate=0.05", seed_offset=700),
+    ]
+    if not q:
+        out.append(conc(f"conc-{workload}-miri-p2", workload, variant="miri", runs=8, shards=8, timeout=2400, miriflags="-Zmiri-preemption-rate=0.2", seed_offset=900))
+    if sanitizers:
+        out.append(conc(f"conc-{workload}-tsan", workload, variant="tsan", runs=600 if q else 20_000, shards=2 if q else 8, timeout=600 if q else 3000, seed_offset=800))
+    return out
+
+
+ALL_WORKLOADS = ["mutex", "semaphore", "mpmc", "event", "handles", "oneshot", "state", "timer"]
 ALL_DRIVERS = ["mutex", "semaphore", "event", "timer", "oneshot", "state", "mpmc"]
 
 
@@ -141,21 +165,22 @@ PLAN = {
     "C16": lambda tier: [{"kind": "probes", "name": "probe-matrix"}],
     "C19": c19,
     "C20": c20,
-    "C01": lambda tier: all_drivers(tier) + [l for d in ALL_DRIVERS for l in san_legs(d, tier)] + san_legs("mpmc-bval", tier),
-    "C02": lambda tier: driver_legs("mutex", tier),
-    "C03": lambda tier: driver_legs("mutex", tier),
+    "C01": lambda tier: all_drivers(tier) + [l for d in ALL_DRIVERS for l in san_legs(d, tier)] + san_legs("mpmc-bval", tier)
+                        + [l for w in ALL_WORKLOADS for l in conc_legs(w, tier, sanitizers=True)],
+    "C02": lambda tier: driver_legs("mutex", tier) + conc_legs("mutex", tier, sanitizers=True),
+    "C03": lambda tier: driver_legs("mutex", tier) + conc_legs("mutex", tier),
     "C04": lambda tier: driver_legs("mutex", tier),
-    "C05": lambda tier: driver_legs("semaphore", tier),
-    "C06": lambda tier: driver_legs("semaphore", tier),
+    "C05": lambda tier: driver_legs("semaphore", tier) + conc_legs("semaphore", tier),
+    "C06": lambda tier: driver_legs("semaphore", tier) + conc_legs("semaphore", tier),
     "C07": lambda tier: driver_legs("semaphore", tier),
-    "C08": lambda tier: driver_legs("mpmc", tier) + san_legs("mpmc-bval", tier, miri_shards=4 if tier == "quick" else 12),
-    "C09": lambda tier: driver_legs("mpmc", tier),
-    "C10": lambda tier: driver_legs("mpmc", tier),
-    "C11": lambda tier: driver_legs("mpmc", tier, 0.6) + driver_legs("oneshot", tier, 0.6) + driver_legs("state", tier, 0.6),
-    "C12": lambda tier: driver_legs("oneshot", tier),
-    "C13": lambda tier: driver_legs("state", tier),
-    "C14": lambda tier: driver_legs("event", tier),
-    "C15": lambda tier: driver_legs("timer", tier),
+    "C08": lambda tier: driver_legs("mpmc", tier) + san_legs("mpmc-bval", tier, miri_shards=4 if tier == "quick" else 12) + conc_legs("mpmc", tier, sanitizers=True),
+    "C09": lambda tier: driver_legs("mpmc", tier) + conc_legs("mpmc", tier),
+    "C10": lambda tier: driver_legs("mpmc", tier) + conc_legs("mpmc", tier),
+    "C11": lambda tier: driver_legs("mpmc", tier, 0.6) + driver_legs("oneshot", tier, 0.6) + driver_legs("state", tier, 0.6) + conc_legs("handles", tier),
+    "C12": lambda tier: driver_legs("oneshot", tier) + conc_legs("oneshot", tier),
+    "C13": lambda tier: driver_legs("state", tier) + conc_legs("state", tier),
+    "C14": lambda tier: driver_legs("event", tier) + conc_legs("event", tier),
+    "C15": lambda tier: driver_legs("timer", tier) + conc_legs("timer", tier),
     "C17": lambda tier: all_drivers(tier),
     "C18": lambda tier: all_drivers(tier),
 }
